@@ -12,6 +12,8 @@ CLAIMED = {
    text="Lean 4 theorems (Props/C10.lean, 63 obligations), all list lengths: every moment/height radicand/drift/slope is linear in the spectrum (heights ×√k), every period, width, Goda, peak index, fitted peak frequency, peak direction index and gamma is invariant under k>0; relabelling directions rotates the per-frequency moment vectors (tables c'=cC+sS, s'=sC−cS with C²+S²=1) leaving a²+b², e and all table-free statistics unchanged, and the repaired Δθ is unchanged by a 0/360 wrap between the first two stored directions; bounds m1² ≤ m0·m2, m2² ≤ m0·m4, 1/fmax ≤ Tm02 ≤ Tm01 ≤ 1/fmin, swe² ∈ [0,1], sw² ≥ 0, a²+b² ≤ e² (dspr ≤ 81.03°), (·)%360 ∈ [0,360), tp inside the frequency range, dp a coordinate; scale_by_hs gives exactly Hs = |expr| where the condition holds and leaves the spectrum untouched elsewhere. The theorems are about the C01/C02 models (tied by those checks and re-sampled here); this check runs the pair laws and bounds directly on the implementation (S vs kS for k ∈ [1e-6,1e6], S vs relabelled S for any real a, scale_by_hs with random expressions and ranges). Not theorems: sqrt/atan2 steps, float32 rounding of dpm to 360.0; alpha and gw are not claimed scale-free (gw refuted in Lean, observation only)."),
  "C19": dict(cat="proof", tech="Lean 4 proof: invariants of the greedy matcher and id propagation by induction over time steps; exhaustive + random correspondence",
    text="Lean 4 theorems (Props/C19.lean, 27 obligations) for every number of steps T ≥ 1, every partition count and every distance matrix (hence every threshold, wind speed and value): ids_marker, ids_unique_per_step, ids_issued_in_order / ids_exact_range (ids are exactly 0..N−1 in order of first appearance), carry_within_thresholds (also on raw fp/dpm with the code's strict comparisons), match_injective / prev_continued_at_most_once, fresh_is_new, no_resurrection, greedy nearest-available characterisation, sites_independent; regenerated literals (999/888 sentinels, 180/360 wrap, defaults) bridged to the model. Tie: np_track_partitions, track_partitions and ptm1_track vs the compiled model on exhaustively enumerated short histories (quick: 2×46,656; thorough: 2×10⁶ with thresholds placed exactly on the alphabet's differences) and random histories up to T=200; the property's direct oracle runs on every implementation output. Not modelled: float evaluation of dfp_wsea (computed by the harness from the docstring and handed over as exact rationals); int16 storage (KNOWN-FINDING F21 beyond 32768 ids)."),
+ "C14": dict(cat="proof", tech="Lean 4 proof: characterisation of nearest / IDW / bbox selection on a mod-360 longitude axis; correspondence + direct oracle",
+   text="Lean 4 theorems (Props/C14.lean, 51 obligations) for all station lists, queries, tolerances and max_sites. For the code as repaired in this task (namespace Fixed; fix commits for the short-way distance and the mod-360 bounding box): nearest_min (returned station minimises the short-way distance and is within tolerance; AssertionError beyond it), idw_convex (weights > 0, sum 1, ∝ 1/d, at most max_sites, all within tolerance; exact station at distance 0; missing when fewer than two in range), bbox_exact (selected ⇔ some lon+360k in the widened box and latitude in range), convention_independent for nearest/idw/bbox, reported longitudes in the query's convention; regenerated _is_180/_is_360 kernels and literals bridged to the model. The pre-repair model is kept with its refutations (nearest_min_fails, idw_shortway_fails, bbox_exact_fails …) and partial theorems as a record of what the repair changed. Square roots enter through a verified oracle table (driver checks d² = radicand or the correctly rounded bracket). Tie: Dataset.spec.sel with all methods, both conventions for dataset and query, stations either side of 0°/180°, duplicated queries, precomputed dset_lons/lats vs the compiled model; the property's direct oracle on every result; ties at the max_sites cut compared as sets."),
 }
 REASON_TODO = "check not built yet in this session (work in progress; see DESIGN.md Appendix E for the order of construction)"
 NA = {}
